@@ -46,14 +46,16 @@ def run(d, allprops):
         return name,meta,('CAUGHT' if own[1]=='caught' else 'MISSED' if own[1]=='silent' else 'ERROR'),'',res
     finally:
         shutil.rmtree(t,ignore_errors=True)
-ap=argparse.ArgumentParser(); ap.add_argument('-k',default=''); ap.add_argument('-j',type=int,default=4); ap.add_argument('--all-props',action='store_true'); ap.add_argument('--benign',action='store_true',help='run the behaviour-preserving corpus /verif/benign: every check must stay silent')
+ap=argparse.ArgumentParser(); ap.add_argument('-k',default=''); ap.add_argument('-j',type=int,default=4); ap.add_argument('--all-props',action='store_true'); ap.add_argument('--benign',action='store_true',help='run the behaviour-preserving corpus /verif/benign: every check must stay silent'); ap.add_argument('--json',default='',help='write per-change results (status, rules that fired) to this file')
 a=ap.parse_args()
 BENIGN=a.benign
 dirs=sorted(d for d in glob.glob('/verif/benign/*' if a.benign else '/verif/seeded/*') if os.path.exists(os.path.join(d,'patch.diff')) and a.k in d)
 missed=0
+JS=[]
 with concurrent.futures.ThreadPoolExecutor(a.j) as ex:
     for name,meta,st,info,res in ex.map(lambda d: run(d,a.all_props), dirs):
         print('%-34s %-7s %s %s'%(name,({'MISSED':'silent','CAUGHT':'ALARM'}.get(st,st) if a.benign else st),meta.get('title','')[:90],info))
+        JS.append(dict(name=name,property=meta['property'],title=meta.get('title',''),status=st,rules=sorted(set(l.split()[1] for prop,s_,failed in res if prop==meta['property'] for l in failed if len(l.split())>1))))
         for prop,s,failed in res:
             if s!='silent':
                 for l in failed[:6]: print('      [%s] %s'%(prop,l[:230]))
@@ -62,3 +64,5 @@ with concurrent.futures.ThreadPoolExecutor(a.j) as ex:
         elif st!='CAUGHT': missed+=1
 if a.benign: print('%d behaviour-preserving changes, %d FALSE ALARMS (or errors)'%(len(dirs),missed))
 else: print('%d seeded changes, %d not caught by their own property'%(len(dirs),missed))
+
+if a.json: json.dump(JS,open(a.json,'w'),indent=1)
